@@ -1,0 +1,81 @@
+// Verification hooks: scheduling points before, and observations after, the
+// shared-memory accesses of the optimistic lock and QSBR protocols, plus
+// allocate / free / retire notifications. Everything here is compiled only
+// with -DUNODB_DETAIL_VERIF_HOOKS; without it every macro expands to nothing.
+#ifndef UNODB_DETAIL_VERIF_HOOKS_HPP
+#define UNODB_DETAIL_VERIF_HOOKS_HPP
+
+#ifdef UNODB_DETAIL_VERIF_HOOKS
+
+#include <atomic>
+#include <cstdint>
+#include <cstring>
+
+namespace unodb::detail::verif {
+
+enum kind : unsigned {
+  lock_load = 1,      // try_read_lock: acquire load of the lock word
+  lock_spin = 2,      // spin_wait_loop_body in try_read_lock
+  lock_check = 3,     // check / try_read_unlock: relaxed load of the lock word
+  lock_cas = 4,       // try_upgrade_to_write_lock
+  lock_unlock = 5,    // write_unlock store
+  lock_obsolete = 6,  // write_unlock_and_obsolete store
+  cs_load = 7,        // in_critical_section::load
+  cs_store = 8,       // in_critical_section::store
+  qsbr_load = 10,     // load of the QSBR state word
+  qsbr_fetch_sub = 11,
+  qsbr_cas = 12,
+  qsbr_spin = 13,     // register_thread waiting for an epoch change
+  orphan_load = 14,
+  orphan_cas = 15,    // add_to_orphan_list head push
+  orphan_xchg = 16,   // take_orphan_list
+  orphan_cas_move = 17,  // current -> previous orphan list move
+  orphan_append = 18,    // tail append fallback
+  mem_alloc = 20,
+  mem_free = 21,
+  mem_retire = 22,
+};
+
+// Called before the access; may block the calling thread.
+using sched_fn = void (*)(unsigned kind, const void* addr);
+// Called after the access with what was read / written.
+using obs_fn = void (*)(unsigned kind, const void* addr, std::uint64_t a,
+                        std::uint64_t b, std::uint64_t c);
+
+inline std::atomic<sched_fn> sched_hook{nullptr};
+inline std::atomic<obs_fn> obs_hook{nullptr};
+
+inline void sched(unsigned k, const void* addr) noexcept {
+  if (auto* const f = sched_hook.load(std::memory_order_relaxed)) f(k, addr);
+}
+
+inline void obs(unsigned k, const void* addr, std::uint64_t a = 0,
+                std::uint64_t b = 0, std::uint64_t c = 0) noexcept {
+  if (auto* const f = obs_hook.load(std::memory_order_relaxed))
+    f(k, addr, a, b, c);
+}
+
+template <typename T>
+[[nodiscard]] inline std::uint64_t to_bits(T v) noexcept {
+  static_assert(sizeof(T) <= sizeof(std::uint64_t));
+  std::uint64_t r = 0;
+  std::memcpy(&r, &v, sizeof(T));
+  return r;
+}
+
+}  // namespace unodb::detail::verif
+
+#define UNODB_DETAIL_VERIF_SCHED(k, addr) \
+  ::unodb::detail::verif::sched(::unodb::detail::verif::k, (addr))
+#define UNODB_DETAIL_VERIF_OBS(k, addr, ...) \
+  ::unodb::detail::verif::obs(::unodb::detail::verif::k, (addr), __VA_ARGS__)
+#define UNODB_DETAIL_VERIF_BITS(v) ::unodb::detail::verif::to_bits(v)
+
+#else  // UNODB_DETAIL_VERIF_HOOKS
+
+#define UNODB_DETAIL_VERIF_SCHED(k, addr) ((void)0)
+#define UNODB_DETAIL_VERIF_OBS(k, addr, ...) ((void)0)
+
+#endif  // UNODB_DETAIL_VERIF_HOOKS
+
+#endif  // UNODB_DETAIL_VERIF_HOOKS_HPP
